@@ -58,6 +58,30 @@ def run(ck):
         badw = [b for b in wr if not (f.dominates(lb, b))]
         ck.ob("DOM", f.path, "lock-query-before-field-writes", not badw, "%d writes through references, all after the lock query" % len(wr), f.loc(lb))
 
+    # registering a lock always records it: every successful return of PrefixesMap::insert passes through a write of the
+    # node's count, and the written count is 1 or the old count + 1 (an early return "because a shorter prefix is already
+    # locked" leaves the new iterator without a lock of its own once the outer iterator is deleted)
+    f = getfn(ck, "sc", E, LL + "PrefixesMap::insert")
+    if f:
+        acc, _ = f.accept_points()
+        wr = [bi for bi in f.reachable() for s2 in f.stmts(bi) if "lhs" in s2 and s2["lhs"][1] and str(s2["lhs"][1][-1]).endswith(":value")]
+        around = [a for a in acc if a in f.reach_from([0], avoid=set(wr)) and a not in wr]
+        ck.ob("DOM", f.path, "lock-recorded-on-every-successful-return", len(wr) >= 1 and not around,
+              "every successful return passes through one of the %d writes of the lock count" % len(wr) if wr and not around else
+              "a successful return is reachable without writing the lock count: the caller believes the prefix is locked, nothing was recorded", f.loc(around[0]) if around else f.loc())
+        for n, bi in enumerate(wr):
+            for s2 in f.stmts(bi):
+                if "lhs" in s2 and s2["lhs"][1] and str(s2["lhs"][1][-1]).endswith(":value"):
+                    o = f.origins(s2["rv"].get("a") or {"k": "copy", "p": [s2["lhs"][0], []]}, deep=True) if s2["rv"].get("k") == "use" else set()
+                    if s2["rv"].get("k") == "agg":
+                        o = set()
+                        for x in s2["rv"]["ops"]:
+                            o |= f.origins(x, deep=True)
+                    inc = has_call_origin(o, r"checked_add$") and ("lit", 1) in o
+                    one = ("lit", 1) in o and not has_call_origin(o, r"checked_add$|::get$")
+                    ck.ob("DEFUSE", f.path, "lock-count-written#%d" % n, inc or one,
+                          "the count written is %s" % ("the old count checked_add 1" if inc else "1 (first lock on this prefix)") if inc or one else "the count written is neither 1 nor the old count + 1", f.loc(bi))
+
     # acquire / release pairing
     cg = CallGraph([c])
     ins = cg.callers(re.compile(r"low_level::PrefixesMap::insert$"))
